@@ -38,7 +38,7 @@ fi
 flock -u 8
 BIN="$D/sim"
 if [ ! -x "$BIN" ] || [ "$(cat "$D/sim.sig" 2>/dev/null)" != "$srcsig" ]; then
-  WRAPS="malloc calloc realloc aligned_alloc free getrandom cpu_supports KeccakP1600_Permute_24rounds KeccakP1600times4_PermuteAll_24rounds KeccakF1600_FastLoop_Absorb KeccakF1600times4_FastLoop_Absorb Keccak_HashInitialize Keccak_HashUpdate Keccak_HashFinal Keccak_HashSqueeze Keccak_HashInitializetimes4 Keccak_HashUpdatetimes4 Keccak_HashFinaltimes4 Keccak_HashSqueezetimes4 mzd_addmul_v_s256_129 mzd_addmul_v_s128_129 mzd_addmul_v_uint64_129"
+  WRAPS="malloc calloc realloc aligned_alloc free getrandom cpu_supports KeccakP1600_Permute_24rounds KeccakP1600times4_PermuteAll_24rounds KeccakF1600_FastLoop_Absorb KeccakF1600times4_FastLoop_Absorb Keccak_HashInitialize Keccak_HashUpdate Keccak_HashFinal Keccak_HashSqueeze Keccak_HashInitializetimes4 Keccak_HashUpdatetimes4 Keccak_HashFinaltimes4 Keccak_HashSqueezetimes4 mzd_addmul_v_s256_129 mzd_addmul_v_s128_129 mzd_addmul_v_uint64_129 pthread_mutex_lock pthread_once call_once"
   W=""; for w in $WRAPS; do W="$W -Wl,--wrap=$w"; done
   g++ $FF $LF -no-pie "$OD"/*.o -Wl,--whole-archive "$D/b/static/libpicnic.a" "$D/libnist.a" -Wl,--no-whole-archive $W -lpthread -o "$BIN.tmp" 2> "$D/simlink.log" \
     || { cat "$D/simlink.log" >&2; echo "simulator link failed" >&2; exit 5; }
